@@ -13,12 +13,16 @@
 package main
 
 import (
+	"crypto/sha1"
+	"encoding/json"
 	"errors"
 	"fmt"
+	"hash"
 	"io"
 	"io/fs"
 	"os"
 	"regexp"
+	"runtime/pprof"
 	"sort"
 	"strconv"
 	"strings"
@@ -102,8 +106,34 @@ type sys struct {
 	st     *disk.Store
 	views  [3]*disk.Store // indexed by Scope
 	m      *Model
-	impl   string   // rendering of the implementation state at the last comparison
-	events []string // what the last Apply exercised
+	impl   string    // rendering of the implementation state at the last comparison
+	events []string  // what the last Apply exercised
+	hist   hash.Hash // running hash of the history applied so far
+}
+
+// validated holds the hashes of the histories whose end state has already been
+// compared in full with the model. BFS re-executes the (deterministic) prefix of
+// every history it extends; the full comparison, which reads every sidecar and
+// blob file, is not repeated for those replayed prefixes.
+var validated sync.Map
+
+func (s *sys) histKey() [20]byte {
+	var k [20]byte
+	copy(k[:], s.hist.Sum(nil))
+	return k
+}
+
+// checkState runs the full comparison unless this exact history was compared before.
+func (s *sys) checkState(ctx string) error {
+	k := s.histKey()
+	if _, ok := validated.Load(k); ok {
+		return nil
+	}
+	if err := s.compare(ctx); err != nil {
+		return err
+	}
+	validated.Store(k, struct{}{})
+	return nil
 }
 
 func newSys(c *cfg) (bfs.System, error) {
@@ -116,13 +146,14 @@ func newSys(c *cfg) (bfs.System, error) {
 		os.RemoveAll(dir)
 		return nil, err
 	}
-	s := &sys{c: c, dir: dir, st: st, m: NewModel(c.cap, movable)}
+	s := &sys{c: c, dir: dir, st: st, m: NewModel(c.cap, movable), hist: sha1.New()}
+	s.hist.Write([]byte(c.name + "\n"))
 	// all three constructors of scoped views are used
 	s.views = [3]*disk.Store{st, st.ScopeComplete(), st.Scoped(storelib.BlobScopeIncomplete)}
 	if c.scoped {
 		s.views = [3]*disk.Store{st.Scoped(storelib.BlobScopeAny), st.Scoped(storelib.BlobScopeComplete), st.ScopeIncomplete()}
 	}
-	if err := s.compare("initial state"); err != nil {
+	if err := s.checkState("initial state"); err != nil {
 		s.Close()
 		return nil, err
 	}
@@ -141,7 +172,14 @@ func (s *sys) Key() string {
 	return s.m.Key() + " ## " + s.impl
 }
 
-func (s *sys) ev(e string) { s.events = append(s.events, e) }
+func (s *sys) ev(e string) {
+	for _, x := range s.events {
+		if x == e {
+			return
+		}
+	}
+	s.events = append(s.events, e)
+}
 
 func dataFor(key string, size uint64) string {
 	if size > 16 {
@@ -345,10 +383,16 @@ func (s *sys) view(key string) (*disk.Store, Scope) {
 	return s.views[ScopeAny], ScopeAny
 }
 
-func (s *sys) Apply(op string) error {
+func (s *sys) Apply(op string) (err error) {
 	s.events = s.events[:0]
 	f := strings.Fields(op)
 	kind := f[0]
+	s.hist.Write([]byte(op + "\n"))
+	defer func() {
+		if r := recover(); r != nil {
+			err = bfs.Failf("panic in the store during "+kind, "%s: %v", op, r)
+		}
+	}()
 	if kind == "observe" {
 		return s.observe()
 	}
@@ -427,7 +471,7 @@ func (s *sys) Apply(op string) error {
 	if !same(want, got) {
 		return bfs.Failf(fmt.Sprintf("%s result differs from model (got %v, want %v)", kind, got, want), "%s through view %v", op, sc)
 	}
-	return s.compare("after " + kind)
+	return s.checkState("after " + kind)
 }
 
 func (s *sys) create(op, key string, size uint64) error {
@@ -494,7 +538,7 @@ func (s *sys) create(op, key string, size uint64) error {
 			return bfs.Failf("Create of a live key removed blobs", "%s removed %v", op, gone)
 		}
 	}
-	return s.compare("after create")
+	return s.checkState("after create")
 }
 
 func (s *sys) clean(op string, target int, respect bool) error {
@@ -515,7 +559,7 @@ func (s *sys) clean(op string, target int, respect bool) error {
 	if len(removed) > 0 {
 		s.ev("clean that removes blobs")
 	}
-	return s.compare("after clean")
+	return s.checkState("after clean")
 }
 
 // compare checks the whole state of the store against the model and renders
@@ -605,6 +649,10 @@ func (s *sys) compare(ctx string) error {
 func (s *sys) observe() error {
 	m := s.m
 	keyBefore := m.Key()
+	if err := s.compare("before observe"); err != nil {
+		return err
+	}
+	implBefore := s.impl
 	fail := func(what string, sc Scope, got, want interface{}, k string) error {
 		return bfs.Failf(fmt.Sprintf("%s through view %v differs from model (got %v, want %v)", what, sc, got, want), "key %s; model: %s", k, m.Key())
 	}
@@ -772,7 +820,6 @@ func (s *sys) observe() error {
 			}
 		}
 	}
-	implBefore := s.impl
 	if err := s.compare("after calls that must not change the state"); err != nil {
 		return err
 	}
@@ -792,30 +839,38 @@ var (
 
 func searches(thorough bool) []*cfg {
 	small := []uint64{0, 1, 2, 3}
+	// depth 12 is beyond the fixpoint of the 2-key searches and of the 3-key `lru` searches: those
+	// enumerate every reachable state of their alphabet (reported as fixpoint:true in the evidence)
 	if !thorough {
 		return []*cfg{
-			{name: "lru", keys: k2, sizes: small, cap: 3, shard: 2, reboot: true, open: true, ban: true, clean: true, depth: 6},
-			{name: "lru3", keys: k3, sizes: []uint64{1, 2}, cap: 3, shard: 2, open: true, ban: true, depth: 5},
-			{name: "meta", keys: k2, sizes: []uint64{1}, cap: 1, shard: 2, reboot: true, ban: true, md: true, depth: 5},
-			{name: "full-scoped", keys: k2, sizes: []uint64{1, 2}, cap: 2, shard: 0, open: true, ban: true, md: true, clean: true, scoped: true, depth: 4},
+			{name: "lru", keys: k2, sizes: small, cap: 3, shard: 2, reboot: true, open: true, ban: true, clean: true, depth: 12},
+			{name: "lru-scoped", keys: k2, sizes: small, cap: 2, shard: 0, open: true, ban: true, clean: true, scoped: true, depth: 12},
+			{name: "lru3", keys: k3, sizes: []uint64{1, 2}, cap: 3, shard: 2, open: true, ban: true, depth: 12},
+			{name: "meta", keys: k2, sizes: []uint64{1}, cap: 1, shard: 2, reboot: true, ban: true, md: true, depth: 12},
+			{name: "full-scoped", keys: k2, sizes: []uint64{1, 2}, cap: 2, shard: 0, open: true, ban: true, md: true, clean: true, scoped: true, depth: 5},
 			{name: "huge", keys: k2, sizes: []uint64{1, huge}, cap: 3, shard: 2, reboot: true, open: true, ban: true, depth: 3},
 		}
 	}
 	var cs []*cfg
 	for _, c := range []uint64{2, 3, 4} {
-		cs = append(cs, &cfg{name: fmt.Sprintf("lru cap=%d", c), keys: k3, sizes: small, cap: c, shard: 2, reboot: c == 3, open: true, ban: true, clean: true, depth: 7})
+		cs = append(cs, &cfg{name: fmt.Sprintf("lru cap=%d", c), keys: k3, sizes: small, cap: c, shard: 2, reboot: c == 3, open: true, ban: true, clean: true, depth: 12})
 	}
 	cs = append(cs,
-		&cfg{name: "meta", keys: k2, sizes: []uint64{1}, cap: 1, shard: 2, reboot: true, ban: true, md: true, depth: 7},
-		&cfg{name: "meta noshard", keys: k2, sizes: []uint64{1, 2}, cap: 2, shard: 0, ban: true, md: true, depth: 6},
-		&cfg{name: "full-scoped", keys: k3, sizes: []uint64{1, 2}, cap: 3, shard: 0, open: true, ban: true, md: true, clean: true, scoped: true, depth: 5},
-		&cfg{name: "full", keys: k2, sizes: small, cap: 3, shard: 2, reboot: true, open: true, ban: true, md: true, clean: true, depth: 6},
+		&cfg{name: "lru-scoped", keys: k2, sizes: small, cap: 3, shard: 0, open: true, ban: true, clean: true, scoped: true, depth: 12},
+		&cfg{name: "meta", keys: k2, sizes: []uint64{1}, cap: 1, shard: 2, reboot: true, ban: true, md: true, depth: 12},
+		&cfg{name: "meta noshard", keys: k2, sizes: []uint64{1, 2}, cap: 2, shard: 0, ban: true, md: true, depth: 9},
+		&cfg{name: "full-scoped", keys: k3, sizes: []uint64{1, 2}, cap: 3, shard: 0, open: true, ban: true, md: true, clean: true, scoped: true, depth: 6},
+		&cfg{name: "full", keys: k2, sizes: small, cap: 3, shard: 2, reboot: true, open: true, ban: true, md: true, clean: true, depth: 8},
 		&cfg{name: "huge", keys: k3, sizes: []uint64{1, 2, huge}, cap: 3, shard: 2, reboot: true, open: true, ban: true, clean: true, depth: 4},
 	)
 	return cs
 }
 
 func main() {
+	if p := os.Getenv("VERIF_PPROF"); p != "" {
+		f, _ := os.Create(p)
+		pprof.StartCPUProfile(f)
+	}
 	run := evid.New("C07", "model_checking")
 	run.Rule = "BFS over all histories up to depth d of {Create(k,size), MarkComplete, Open, Delete, BanEviction, UnbanEviction, Set/Delete/WriteAt metadata (one movable, one non-movable type), Clean(0|50|99, respect ban y/n), observe} on a real disk.Store (tmpfs) vs the LRU reference model; state = model state + full dump of the store (accounting, eviction queue, blob table, metadata and bytes per blob), deduplicated; after every transition the whole store state is compared with the model; `observe` = all reads through the 3 scoped views plus every call that must fail / be a no-op. distinct = distinct states per search configuration (alphabet subset x capacity x shard length x reboot flag)."
 	run.Assume("small-scope: 2-3 keys of equal length, sizes 0..3 (plus 2^64-1 in the `huge` search), capacities 1..4, depth as listed per search")
@@ -824,13 +879,28 @@ func main() {
 	run.Assume("Create, MarkComplete and Clean are not scoped (documented in scoped_store.go); they are called through scoped views and must behave as through the unscoped one")
 	run.Assume("sequential histories only (no concurrent calls); no restart of the store (C06 covers recovery)")
 
+	if p := run.ReplayPath(); p != "" {
+		replay(run, p)
+		return
+	}
+
 	deadline := time.Now().Add(45 * time.Second)
 	if run.Thorough() {
 		deadline = time.Now().Add(13 * time.Minute)
 	}
 	for _, c := range searches(run.Thorough()) {
 		c := c
-		name := fmt.Sprintf("%s keys=%d sizes=%v cap=%d shard=%d reboot=%v scoped=%v depth=%d", c.name, len(c.keys), sizesStr(c.sizes), c.cap, c.shard, c.reboot, c.scoped, c.depth)
+		// development aids: restrict to one search / override its depth (the run is then marked not exhaustive)
+		if only := os.Getenv("VERIF_C07_ONLY"); only != "" {
+			if c.name != only {
+				continue
+			}
+			if d, err := strconv.Atoi(os.Getenv("VERIF_C07_DEPTH")); err == nil {
+				c.depth = d
+			}
+			run.NotExhaustive("VERIF_C07_ONLY set: only search " + only)
+		}
+		name := searchName(c)
 		res := rep.BFS(run, name, bfs.Config{MaxDepth: c.depth, Deadline: deadline, New: func() (bfs.System, error) { return newSys(c) }})
 		for i := 0; i < res.States; i++ {
 			run.Distinct(fmt.Sprintf("%s#%d", c.name, i))
@@ -842,12 +912,56 @@ func main() {
 	}
 	need := []string{"create that evicts", "create refused for lack of space", "refused create that evicted", "open of an evictable blob", "calls on a blob hidden by the view", "completion with non-movable metadata present", "clean that removes blobs", "observe"}
 	for _, k := range need {
-		if cnt[k] == 0 && run.NViolations() == 0 {
+		if cnt[k] == 0 && run.NViolations() == 0 && os.Getenv("VERIF_C07_ONLY") == "" {
 			cntMu.Unlock()
 			run.Fatal(fmt.Errorf("vacuous: no transition with %q", k))
 		}
 	}
 	cntMu.Unlock()
+	pprof.StopCPUProfile()
+	run.Finish()
+}
+
+func searchName(c *cfg) string {
+	return fmt.Sprintf("%s keys=%d sizes=%v cap=%d shard=%d reboot=%v scoped=%v depth=%d", c.name, len(c.keys), sizesStr(c.sizes), c.cap, c.shard, c.reboot, c.scoped, c.depth)
+}
+
+// replay re-executes the history of a replay artefact on a fresh store + model.
+func replay(run *evid.Run, path string) {
+	b, err := os.ReadFile(path)
+	if err != nil {
+		run.Fatal(err)
+	}
+	var rp struct {
+		Fingerprint string `json:"fingerprint"`
+		Case        struct {
+			Search  string   `json:"search"`
+			History []string `json:"history"`
+		} `json:"case"`
+	}
+	if err := json.Unmarshal(b, &rp); err != nil {
+		run.Fatal(err)
+	}
+	var c *cfg
+	for _, x := range append(searches(false), searches(true)...) {
+		if searchName(x) == rp.Case.Search {
+			c = x
+		}
+	}
+	if c == nil {
+		run.Fatal(fmt.Errorf("replay: unknown search %q", rp.Case.Search))
+	}
+	err = bfs.Replay(bfs.Config{New: func() (bfs.System, error) { return newSys(c) }}, rp.Case.History)
+	run.Eval(len(rp.Case.History))
+	run.Distinct("replay")
+	run.Distinct("replay:" + rp.Fingerprint)
+	if f, ok := err.(*bfs.Fail); ok {
+		run.Violation(f.Fingerprint, map[string]interface{}{"search": rp.Case.Search, "history": rp.Case.History, "msg": f.Msg})
+	} else if err != nil {
+		run.Fatal(err)
+	} else {
+		fmt.Printf("replay of %v: no violation\n", rp.Case.History)
+	}
 	run.Finish()
 }
 
